@@ -19,7 +19,10 @@ rec = {"check": "./check %s %s (tools/with_repo_patch.sh %s/patch.diff ...)" % (
        "concrete_input_found": bool(first) and "no-failing-input-found" not in first,
        "repo_head": subprocess.run("git -C /repo rev-parse --short HEAD", shell=True, capture_output=True, text=True).stdout.strip(),
        "verif_head": subprocess.run("git -C /verif rev-parse --short HEAD", shell=True, capture_output=True, text=True).stdout.strip()}
-json.dump(rec, open(d + "/detection.json", "w"), indent=1)
+import os
+seed = os.environ.get("VERIF_SEED")
+rec["seed"] = seed or "default"
+json.dump(rec, open(d + ("/detection.json" if not seed else "/detection_seed%s.json" % seed), "w"), indent=1)
 PY
   echo "$d $p exit=$rc lines=$n $first"
 done
